@@ -173,6 +173,19 @@ CLAIMED = {
          "asyncio.sleep contract); no liveness claim.",
     technique="contract-based deductive verification: cooperative Owicki-Gries style invariant over atomic segments of the real coroutine, z3",
     design="4 C17 / 5"),
+ "C01": dict(
+    category="proof",
+    text="Deductive invariant argument 'mirror == published view of the device state', each step a discharged obligation on the real code or a cited contract: the real mutators (Vector.enabled, "
+         "Vector.state_, Group.enabled, Element.value / set_value, Driver.send_message) are proved to send exactly the definition / deletion / update messages of their table row, serialised after "
+         "the state change, in order, and to leave everything else untouched; the convergence lemma -- client step (the C15 reference step) applied to the messages (content per C07) turns the "
+         "published view of the old state, or anything in the case of a definition, into the published view of the new state -- is discharged by z3 on the spec functions themselves for every "
+         "property kind, 0..3 elements and every enabled pattern; inheritance of groups is a ground obligation on the real metaclass. Delivery (fan-out, codec, framing, ordering) is cited from "
+         "C05/C03/C02/C19, writes from C06.",
+    note="Composition by contract (DESIGN 4 C01). BLOB payloads are mirrored only by clients that enabled BLOBs and not by definitions. Bounded stand-in: native random histories over random driver "
+         "definitions with a network client behind the real codec/framing and a snooping client.",
+    technique="contract-based deductive verification: per-mutator publication contracts on the real code + convergence lemma over the C07/C15 contracts (z3); composition over C02/C03/C05/C06/C19 cited; "
+              "bounded native random-history stand-in",
+    design="4 C01"),
  "C06": dict(
     category="proof",
     text="Deductive, function by function on the real write path: client-side Vector.submit is proved to emit one new*Vector addressed to the property's device and name whose children are exactly "
